@@ -1,4 +1,4 @@
-\* spec -> code (quick): every session of 2 statements on one connection
+\* spec -> code (quick): every session of 2 statements on one connection, each typed or stored in the ledger and submitted with .run
 CONSTANTS
   Headers <- Empty
   Pool <- Empty
@@ -12,6 +12,7 @@ CONSTANTS
   Variant = "shipped"
   NConn = 1
   MaxSteps = 2
+  Routes = {"typed", "run"}
   Mech = "shipped"
 INIT SInit
 NEXT SNext
